@@ -28,19 +28,19 @@ fn plans_c01(tier: Tier) -> Vec<Plan> {
     c.prelude = connect_all(4);
     c.topics = s(&["a/b", "a/c"]);
     c.filters = s(&["a/b", "a/+", "#"]);
-    v.push(Plan { cfg: c.clone(), depth_by_devs: if quick { vec![4, 4] } else { vec![6, 6, 5] } });
+    v.push(Plan { cfg: c.clone(), depth_by_devs: if quick { vec![4, 3] } else { vec![5, 5, 4] } });
     // variant 1: QoS1/2
     let mut c1 = c.clone();
     c1.variant = 1;
     c1.topics = s(&["a/b", "x"]);
     c1.filters = s(&["a/#", "+/b"]);
-    v.push(Plan { cfg: c1.clone(), depth_by_devs: if quick { vec![5, 4] } else { vec![7, 6, 5] } });
+    v.push(Plan { cfg: c1.clone(), depth_by_devs: if quick { vec![4, 4] } else { vec![6, 5, 5] } });
     // variant 2: $-prefixed and multi-byte topics, disconnect/reconnect of subscribers
     let mut c2 = c.clone();
     c2.variant = 2;
     c2.topics = s(&["$x/y", "é/b", "a"]);
     c2.filters = s(&["#", "é/+", "+"]);
-    v.push(Plan { cfg: c2.clone(), depth_by_devs: if quick { vec![4] } else { vec![6, 5] } });
+    v.push(Plan { cfg: c2.clone(), depth_by_devs: if quick { vec![3, 3] } else { vec![5, 4] } });
     if !quick {
         // configurations: hash order, tiny outgoing batch, v5 subscribers
         let mut d = c.clone();
@@ -76,7 +76,7 @@ fn plans_c06(tier: Tier) -> Vec<Plan> {
     c1.variant = 1;
     c1.prelude.push(Act::Sub { c: 0, f: 0, qos: 1 });
     c1.prelude.push(Act::Burst { c: 1, t: 0, qos: 0, n: 101 });
-    v.push(Plan { cfg: c1, depth_by_devs: if q { vec![2] } else { vec![3, 3] } });
+    v.push(Plan { cfg: c1, depth_by_devs: if q { vec![3] } else { vec![3, 3] } });
     // requests arriving while the connection is paused as busy (stalled link, 250 buffered)
     let mut c2 = c.clone();
     c2.variant = 2;
@@ -299,6 +299,27 @@ pub fn explore_plans(prop: &'static str, tier: Tier, reporter: &Reporter, ev: &m
     let per_plan = budget.mul_f64(budget_share) / plans.len() as u32;
     let mut per_cfg = vec![];
     let mut outcomes_total = 0;
+    // depth bonus per property (tuned so that the quick tier stays well under a minute and the
+    // thorough tier finishes without hitting its time cap on this machine)
+    let delta: usize = match (prop, tier) {
+        ("C03", _) => 2,
+        ("C06", Tier::Thorough) => 1,
+        ("C08", Tier::Quick) => 1,
+        ("C09", _) => 1,
+        ("C14", Tier::Quick) => 2,
+        ("C14", Tier::Thorough) => 1,
+        ("C16", _) => 2,
+        ("C17", _) => 1,
+        ("C19", _) => 1,
+        ("C20", _) => 1,
+        _ => 0,
+    };
+    let mut plans = plans;
+    for p in plans.iter_mut() {
+        for d in p.depth_by_devs.iter_mut() {
+            *d += delta;
+        }
+    }
     for p in plans.iter() {
         let params = Params {
             depth_by_devs: p.depth_by_devs.clone(),
